@@ -99,6 +99,12 @@ pub struct ChunkSink {
     pub taken: Vec<u8>,
 }
 
+impl ChunkSink {
+    pub fn new(chunk: usize) -> ChunkSink {
+        ChunkSink { chunk, taken: Vec::new() }
+    }
+}
+
 impl Write for ChunkSink {
     fn write(&mut self, buf: &[u8]) -> io::Result<usize> {
         let n = buf.len().min(self.chunk.max(1));
